@@ -27,9 +27,9 @@ func dcgRules(gr []J, dq bool) []string {
 			// the same terminals written as a string literal (double_quotes = chars)
 			s = strings.ReplaceAll(s, "[x,y]", "\"xy\"")
 			if opt("alphabet") == "unicode" { // (and every terminal list of the body, with the two-byte and three-byte terminals)
-				s = strings.ReplaceAll(s, "[é,日]", "\"é日\"")
-				s = strings.ReplaceAll(s, "[é]", "\"é\"")
-				s = strings.ReplaceAll(s, "[日]", "\"日\"")
+				s = strings.ReplaceAll(s, "['é','日']", "\"é日\"")
+				s = strings.ReplaceAll(s, "['é']", "\"é\"")
+				s = strings.ReplaceAll(s, "['日']", "\"日\"")
 			}
 		}
 		return s
